@@ -199,7 +199,10 @@ export class ProcGenWrapper {
     bindingMapGenList: { [field: string]: BindingMapGen[] },
   ): boolean {
     if (this.bindingMapDisabled) return false
-    const updaters = bindingMapGenList[field]
+    // (a field named like a member of Object.prototype must not find the inherited member)
+    const updaters = Object.prototype.hasOwnProperty.call(bindingMapGenList, field)
+      ? bindingMapGenList[field]
+      : undefined
     if (!updaters) return false
     let prevElement: Element | null = null
     for (let i = 0; i < updaters.length; i += 1) {
